@@ -10,7 +10,7 @@ EXPLANATION = (
     "accepted, one with a single conflicting group is rejected only by the capacity guard or improves_balance; (EXACT) the predicate "
     "tests nothing beyond W/W, W/R, R/W (read/read never conflicts); (DEPCOVER) the ranges of stages whose ids are crossed off the "
     "pending dependency list chain from 0 up to the scanned range; (ALLOCC) crossing off removes every equal entry; (WIDTH) "
-    "max_threads is the maximum over all stages of the group count; (PLACE) stages and groups come into being only in add_stage / add_group as called by insert "
+    "(ALLOCC also: a way through remove_ids that crosses nothing off has established that the pending list is empty;) max_threads is the maximum over all stages of the group count; (PLACE) stages and groups come into being only in add_stage / add_group as called by insert "
     "after its search (nothing else in the crate changes the shape of the plan tables), so no stage exists that the search did not ask for. Optimality of the balance heuristic is not decided.")
 ASSUMPTIONS = ["Iterator::find returns the first match; SmallVec::retain removes all non-matching entries"]
 TRUSTED = ["rustc nightly MIR construction", "shred-facts driver", "shredlint analyses"]
